@@ -526,10 +526,106 @@ def run_C05(tier, workdir):
             h = H.IrregularlyBin(es, eval(IDENT))
             return obligations_fill("IrregularlyBin", repr(es), h, Kernel(Factory.registered["IrregularlyBin"], h, {"x": FP("x")}), workdir, tl, replay_fill)
         jobs.append(job)
-    n = validate_translator(workdir)
-    out = summarize(_pool(jobs), "C05")
+    try:
+        n = validate_translator(workdir)
+        results = _pool(jobs)
+    except Unsupported as e:
+        n = 0
+        results = [{"id": "encode", "status": "unknown", "detail": "kernel not encodable: %s" % e}]
+    results += conservation_probes()
+    out = summarize(results, "C05")
     out["samples"].insert(0, {"translator_validation": "encoding pinned to concrete inputs == real method", "inputs_checked": n})
     return out
+
+
+def conservation_probes():
+    """the vectorised paths are numpy C code: on the edge probes of every configuration (sampled), filled through the real
+    numpy in one batch, every datum must land in exactly one bin or flow (entries == sum of parts == number of rows)"""
+    import numpy as np
+
+    import probes
+
+    H = _H()
+    out = []
+    cases = []
+    for cfg in BIN_CONFIGS + [(100, -3.0, 3.0), (20, -1.0, 1.0), (7, -1000.3, 0.1), (3, -1.0, 2.0), (1000, 0.0, 1.0)]:
+        num, low, high = cfg
+        cases.append(("Bin/%s" % _cfgname(cfg), lambda cfg=cfg: H.Bin(cfg[0], cfg[1], cfg[2], eval(IDENT)), [low + i * (high - low) / num for i in range(num + 1)]))
+        cases.append(("Bin/%s/Sum" % _cfgname(cfg), lambda cfg=cfg: H.Bin(cfg[0], cfg[1], cfg[2], eval(IDENT), H.Sum(eval(IDENT))), [low + i * (high - low) / num for i in range(num + 1)]))
+    for cfg in SPARSE_CONFIGS:
+        cases.append(("SparselyBin/%s" % _cfgname(cfg), lambda cfg=cfg: H.SparselyBin(cfg[0], eval(IDENT), H.Count(), H.Count(), cfg[1]), [cfg[1] + i * cfg[0] for i in range(-3, 4)]))
+    for cs in CENTERS:
+        cases.append(("CentrallyBin/%r" % (cs,), lambda cs=cs: H.CentrallyBin(cs, eval(IDENT)), [(a + b) / 2.0 for a, b in zip(cs, cs[1:])] + list(cs)))
+    for es in EDGES:
+        cases.append(("IrregularlyBin/%r" % (es,), lambda es=es: H.IrregularlyBin(es, eval(IDENT)), list(es)))
+    for name, mk, edges in cases:
+        finite = probes.edge_probes(edges)
+        bad = None
+        # an all-finite batch (takes the np.histogram / np.unique fast paths) and a batch with NaN, +-inf and huge values
+        for xs in (finite, finite + [float("nan"), float("inf"), float("-inf"), 1e300, -1e300]):
+            h = mk()
+            try:
+                with np.errstate(all="ignore"):
+                    h.fill.numpy(np.array(xs, dtype=float))
+                parts = _parts(h)
+                if h.entries != float(len(xs)) or sum(parts) != float(len(xs)):
+                    bad = bad or "entries %r, parts sum %r, rows %d" % (h.entries, sum(parts), len(xs))
+            except Exception as e:  # noqa: BLE001
+                bad = bad or "fill.numpy raised %r" % (e,)
+        xs = finite
+        rid = "%s/vectorised-conservation(probes)" % name
+        if bad is None:
+            out.append({"id": rid, "status": "unsat", "expect": "unsat", "sampled": True, "time_s": 0, "per_solver": {},
+                        "detail": "sampled: %d edge probes in one real-numpy batch, every row in exactly one bin or flow" % len(xs)})
+        else:
+            out.append({"id": rid, "status": "sat", "expect": "unsat", "sampled": True, "time_s": 0, "per_solver": {},
+                        "replay": {"reproduced": True, "x": "edge-probe batch", "detail": "vectorised fill of the edge probes loses or duplicates a row: " + bad}})
+    return out
+
+
+def probe_formula_fallback(prop):
+    """used when an index kernel cannot be encoded (unsupported construct): the real method is compared with the documented
+    index formula, evaluated in plain double arithmetic, on the edge probes of every configuration (sampled, not solver-decided)"""
+    import probes
+
+    H = _H()
+    out = []
+    for cfg in BIN_CONFIGS:
+        num, low, high = cfg
+        h = H.Bin(num, low, high, eval(IDENT))
+        bad = None
+        n = 0
+        for x in probes.edge_probes([low + i * (high - low) / num for i in range(num + 1)]):
+            if not (low <= x < high):
+                continue
+            n += 1
+            want = min(num - 1, int(math.floor(num * (x - low) / (high - low))))
+            if h.bin(x) != want:
+                bad = (x, h.bin(x), want)
+                break
+        out.append(_probe_result("Bin/%s/index-equals-documented-formula(probes)" % _cfgname(cfg), n, bad))
+    for cfg in SPARSE_CONFIGS:
+        bw, origin = cfg
+        h = H.SparselyBin(bw, eval(IDENT), H.Count(), H.Count(), origin)
+        bad = None
+        n = 0
+        for x in probes.edge_probes([origin + i * bw for i in range(-3, 4)]):
+            n += 1
+            want = int(math.floor((x - origin) / bw))
+            if h.bin(x) != want:
+                bad = (x, h.bin(x), want)
+                break
+        out.append(_probe_result("SparselyBin/%s/index-equals-documented-formula(probes)" % _cfgname(cfg), n, bad))
+    return out
+
+
+def _probe_result(name, n, bad):
+    if bad is None:
+        return {"id": name, "status": "unsat", "expect": "unsat", "detail": "sampled: %d edge probes agree with the documented formula (no solver verdict)" % n,
+                "time_s": 0, "per_solver": {}, "sampled": True}
+    x, got, want = bad
+    return {"id": name, "status": "sat", "expect": "unsat", "time_s": 0, "per_solver": {}, "sampled": True,
+            "replay": {"reproduced": True, "x": repr(x), "detail": "x=%r is put in bin %r, the documented formula gives %r" % (x, got, want)}}
 
 
 def run_C02(tier, workdir):
@@ -542,8 +638,15 @@ def run_C02(tier, workdir):
     if tier == "thorough":
         for cfg in SPARSE_CONFIGS:
             jobs.append(lambda cfg=cfg: [r for r in obligations_sparse(_cfgname(cfg), cfg[0], cfg[1], workdir, tl) if "monotone" in r["id"]])
-    n = validate_translator(workdir)
-    out = summarize(_pool(jobs), "C02")
+    try:
+        n = validate_translator(workdir)
+        results = _pool(jobs)
+    except Unsupported as e:
+        # a kernel uses a construct the encoder does not support: no solver verdict for it; fall back to sampled probes
+        n = 0
+        results = [{"id": "encode", "status": "unknown", "detail": "kernel not encodable: %s" % e}] + probe_formula_fallback("C02")
+    results += probe_formula_fallback("C02") if tier == "thorough" and n else []
+    out = summarize(results, "C02")
     out["samples"].insert(0, {"translator_validation": "encoding pinned to concrete inputs == real method", "inputs_checked": n})
     return out
 
